@@ -17,8 +17,9 @@ META = {
             "duplicates, collinear, coplanar, clustered, sphere, 2^+-60 scales), hulls of manifolds and of several manifolds judged by hull_check; Minkowski pairs: "
             "a+b in Sum for exactly classified a in A, b in B; A subset Sum; nothing farther than reach(B); Difference subset A and p-b in A.",
     "note": "Known finding F2 (non-convex (+) non-convex omits B) is replayed deterministically with key minkowski-nonconvex-omits-B; random pairs always have a convex "
-            "structuring element. Degenerate clouds: the pinned library returns a flat zero-volume mesh (its tests assert !IsEmpty() and Simplify().IsEmpty()); "
-            "the check requires exactly that (flat mesh in the input's plane, zero volume, Simplify().IsEmpty()). eps = 2 * defaultEps (parsed from quickhull.cpp) * max|coordinate|. "
+            "structuring element. Two further corpus findings: minkowski-difference-swaps-operands (convex A, non-convex B: operands are swapped also for the difference) and "
+            "hull-quickhull-loses-points (10-point cloud, corpus/C16; quick-tier random multi-manifold hulls avoid Boolean operands because of it). Degenerate clouds: the pinned library returns a flat zero-volume mesh (its tests assert !IsEmpty() and Simplify().IsEmpty()); "
+            "the check requires exactly that (flat mesh in the input's plane - hence exact volume 0 - and Simplify().IsEmpty()). eps = 2 * defaultEps (parsed from quickhull.cpp) * max|coordinate|. "
             "Trusted: Coq kernel, extraction, OCaml driver (scaling, sampling grids, generic-position filter), harness.",
 }
 
@@ -77,9 +78,13 @@ def R3(rng, a, b):
     return repr(round(rng.uniform(a, b), 3))
 
 
-def gen_hullm(rng):
+def gen_hullm(rng, quick=True):
+    n = rng.choice([1, 1, 2, 3])
+
     def one():
-        k = rng.choice(["sphere", "cyl", "lshape", "cube", "bool"])
+        # quick tier: Boolean results only as single operands - the known QuickHull defect (key hull-quickhull-loses-points,
+        # 1 of 600 random multi-manifold hulls, both hits with a cube-minus-sphere operand) is represented by the corpus
+        k = rng.choice(["sphere", "cyl", "lshape", "cube", "bool"] if (n == 1 or not quick) else ["sphere", "cyl", "lshape", "cube"])
         if k == "sphere":
             s = "sphere %s %d" % (R3(rng, .5, 1.5), rng.choice([4, 8, 12]))
         elif k == "cyl":
@@ -93,7 +98,6 @@ def gen_hullm(rng):
         if rng.random() < .7:
             s += " rot %s %s %s" % (R3(rng, -180, 180), R3(rng, -180, 180), R3(rng, -180, 180))
         return s
-    n = rng.choice([1, 1, 2, 3])
     return " ".join(one() + (" tr %s %s %s" % (R3(rng, -2, 2), R3(rng, -2, 2), R3(rng, -2, 2)) if i else "") for i in range(n)), "manifold x%d" % n
 
 
@@ -139,6 +143,12 @@ def build_cases(cx):
     add("MINK @ sum %s | %s" % (F2_SMALL, F2_BIG), "mink-sum", {"aconvex": False, "bconvex": False, "corpus": "F2"})
     add("MINK @ sum %s | %s" % (F2_BIG, F2_SMALL), "mink-sum", {"aconvex": False, "bconvex": False, "corpus": "F2-swapped"})
     add("MINK @ diff cube 1 1 1 1 | %s" % F2_BIG, "mink-diff", {"aconvex": True, "bconvex": False, "corpus": "diff-swap"})
+    # finding: QuickHull drops input points (10 points in general position, one ends up 0.43 outside the result)
+    cfile = os.path.join(vp.ROOT, "corpus/C16/hull_loses_points_10.txt")
+    if os.path.exists(cfile):
+        add(open(cfile).read().strip(), "hull-corpus-loses-points", {"corpus": "quickhull"})
+    add("HULLM @ cube 1 1 1 1 sphere 0.7 8 tr 0.378 0.038 0.31 sub rot -171.553 60.139 -147.658 cube 0.845 1.612 1.147 1 tr -1.761 -1.075 -0.71",
+        "hull-corpus-loses-points", {"corpus": "quickhull"})
     add("HULLP @ 4 0 0 0 1 0 0 0 1 0 1 1 0", "hull-coplanar")
     add("HULLP @ 5 0 0 0 0 0 1 0.5 0 0 0.5 0 0 0.5 0 1", "hull-coplanar")
     add("HULLP @ 0", "hull-none")
@@ -146,7 +156,7 @@ def build_cases(cx):
         p, k = gen_cloud(rng)
         add("HULLP @ " + p, "hull-" + k)
     for _ in range(nm):
-        p, k = gen_hullm(rng)
+        p, k = gen_hullm(rng, cx.quick())
         add("HULLM @ " + p, "hull-" + k)
     for i in range(nk):
         op = rng.choice(["sum", "sum", "diff"])
@@ -219,7 +229,7 @@ def run(cx):
     info = {c[0]: c for c in cases}
     kl = lambda l: l.split()[1] if l[:4] in ("HULL", "MINK") else None
     ko = lambda l: l.split()[1] if l.startswith("END ") else None
-    out_impl, crashes = vp.run_cases(exe, lines, kl, ko, timeout=1500)
+    out_impl, crashes = vp.run_cases(exe, lines, kl, ko, timeout=cx.pick(300, 1500))
     for cl, rc, err in crashes:
         cx.violation("hull-minkowski-crash", "Hull/Minkowski crashed or hung (rc=%s): %s" % (rc, err[-200:]), {"case": cl})
     cx.log("harness done: %d cases, %d crashes" % (len(cases), len(crashes)))
@@ -260,10 +270,11 @@ def run(cx):
             if status != 0:
                 viol("hull-status", cid, "Hull returned status %d" % status, l)
             elif code != 0:
-                viol(HULL_KEYS.get(code, "hull-rejected"), cid, "hull_check rejects the result (code %d: %s) for %d input points; mesh %d verts %d tris" % (
+                viol("hull-quickhull-loses-points" if (code == 3 and c[3].get("corpus") == "quickhull") else HULL_KEYS.get(code, "hull-rejected"), cid, "hull_check rejects the result (code %d: %s) for %d input points; mesh %d verts %d tris" % (
                     code, HULL_KEYS.get(code), npts, nv, nt), l)
-            elif flat and not (simp_empty == 1 and volzero == 1):
-                viol("hull-degenerate-not-empty", cid, "input spans no volume but the hull is not empty (Simplify().IsEmpty()=%d, Volume()==0: %d)" % (simp_empty, volzero), l)
+            elif flat and nt > 0 and simp_empty != 1:
+                # (the mesh is exactly flat by hull_check: its vertices are input points; Volume() may carry rounding noise)
+                viol("hull-degenerate-not-empty", cid, "input spans no volume but the hull does not simplify to the empty manifold (Simplify().IsEmpty()=%d)" % simp_empty, l)
             if npts >= 5 and not flat:
                 nontriv.add(cid)
         elif chk == "sum":
@@ -317,9 +328,9 @@ def run(cx):
                 "Minkowski pairs with a convex structuring element + fixed corpus (F2 witness both orders, difference with non-convex B); non-trivial = hull input of >= 5 "
                 "points spanning volume, or a Minkowski case with at least one judged sample pair; distinct by case text",
         "distribution": {"cases_by_kind": kinds, "checks": stats, "defaultEps": de,
-                         "F2_volumes(A,B,result)": {info[c][3].get("corpus"): vols.get(c) for c in ("0", "1", "2")}},
+                         "corpus_volumes(A,B,result)": {info[c][3].get("corpus"): vols.get(c) for c in ("0", "1", "2")}},
     })
-    for i in (0, 2, 8, 30, len(cases) - 1):
+    for i in (0, 2, 10, 30, len(cases) - 1):
         if i < len(cases):
             cx.sample({"case": cases[i][1][:300], "kind": cases[i][2]})
     cx.log("checked %d verdicts over %d cases: %s" % (checked, len(cases), stats))
